@@ -1,6 +1,7 @@
 import Rare.Base.Proto
 import Rare.Model.C15
 import Rare.Model.C15Trunc
+import Rare.Model.C15Rename
 import Rare.Model.C15Wiring
 import Rare.Model.C15Api
 import Rare.Model.C15Tail
@@ -43,6 +44,12 @@ def nCreate (s : NSt UInt8) : NSt UInt8 :=
 def nTrunc (s : NSt UInt8) (n : Nat) : NSt UInt8 :=
   match s.fs.path with
   | some i => if n < (s.fs.content i).length then { s with fs := s.fs.truncate i n, evq := s.evq ++ [.write] } else s
+  | none => s
+
+/-- `m`: the file at the path is renamed away – the writer step of `NStepR` -/
+def nRename (cfg : NCfg) (s : NSt UInt8) : NSt UInt8 :=
+  match s.fs.path with
+  | some _ => { s with fs := s.fs.remove, evq := s.evq ++ [renameEv cfg], removes := s.removes + 1 }
   | none => s
 
 /-- one step of the kernel goroutine, if it has one -/
@@ -159,6 +166,7 @@ inductive Op
   | append (b : Bytes) | pause | drain | removeDrained | remove | create | hold (b : Bytes) | release | skip
   | lateAppend (b : Bytes)   -- `L`: release the consumer, then an append timed into the poller's last sleep
   | trunc (n : Nat)          -- `t<n>`: truncate the file at the path to `n` bytes, in place
+  | rename                   -- `m`: rename the file at the path away
   deriving Repr
 
 def parseOp (st : String) : Option Op :=
@@ -175,6 +183,7 @@ def parseOp (st : String) : Option Op :=
   | ['w'] => some .drain
   | ['d'] => some .removeDrained
   | ['x'] => some .remove
+  | ['m'] => some .rename
   | ['c'] => some .create
   | ['r'] => some .release
   | [] => some .skip
@@ -193,6 +202,7 @@ def runNotify (cfg : NCfg) (prefD kf : Bool) (s0 : NSt UInt8) (startHeld : Bool)
     | .remove | .removeDrained => { sim with st := settle sim.held (nRemove sim.st) }
     | .create => { sim with st := settle sim.held (nCreate sim.st) }
     | .trunc n => { sim with st := settle sim.held (nTrunc sim.st n) }
+    | .rename => { sim with st := settle sim.held (nRename cfg sim.st) }
     | .hold b =>
       if sim.held || b.isEmpty || sim.st.fs.path.isNone then { sim with st := settle sim.held (nAppend sim.st b) }
       else
@@ -214,6 +224,7 @@ def runPoll (cfg : PCfg) (s0 : PSt UInt8) (startHeld : Bool) (ops : List Op) : P
     | .remove | .removeDrained => { sim with st := settle sim.held (pRemove sim.st) }
     | .create => { sim with st := settle sim.held (pCreate sim.st) }
     | .trunc n => { sim with st := settle sim.held (pTrunc sim.st n) }
+    | .rename => { sim with st := settle sim.held (pRemove sim.st) }
     | .hold b =>
       if sim.held || b.isEmpty || sim.st.fs.path.isNone then { sim with st := settle sim.held (pAppend sim.st b) }
       else { st := settle false (pAppend sim.st b), held := true }
